@@ -130,6 +130,27 @@ def _real_coords(name, args):
         except (IndexError, TypeError):
             return ["err2"]
         return [",".join(C.frs(Fraction(float(v))) for v in c) if len(c) else "-" for c in r]
+    if name in ("blockLines", "rollingCentres"):
+        lst = lambda t: np.array([] if t == "-" else [float(C.tofrac(v)) for v in t.split(",")])  # noqa: E731
+        es, ns = lst(args[0]), lst(args[1])
+        k = 3 if name == "rollingCentres" else 2
+        region = None if args[k] == "none" else tuple(float(C.tofrac(v)) for v in args[k].split(","))
+        shape = None if args[k + 1] == "none" else tuple(int(t) for t in args[k + 1].split("x"))
+        sp = None if args[k + 2] == "none" else ([] if args[k + 2] == "-" else [float(C.tofrac(t)) for t in args[k + 2].split(",")])
+        fmt = lambda c: ",".join(C.frs(Fraction(float(v))) for v in c) if len(c) else "-"  # noqa: E731
+        try:
+            if name == "rollingCentres":
+                centers, _ = co.rolling_window((es, ns), float(C.tofrac(args[2])), spacing=sp, shape=shape, region=region, adjust=args[k + 3])
+                return [fmt(centers[0][0, :]), fmt(centers[1][:, 0])]
+            (be, bn), _ = co.block_split((es, ns), spacing=sp, adjust=args[k + 3], region=region, shape=shape)
+            ne = 1
+            while ne < len(be) and be[ne] != be[0]:      # (row-major ravel of a meshgrid: the east line repeats)
+                ne += 1
+            return [fmt(be[:ne]), fmt(bn[::ne])]
+        except ValueError:
+            return ["err"]
+        except (IndexError, TypeError):
+            return ["err2"]
     if name == "shapeToSpacing":
         w, e, s, n = (float(C.tofrac(t)) for t in args[:4])
         try:
